@@ -234,8 +234,19 @@ def _thread_const_returns(prog, j, ret_local, callee_blocks):
 
     for bi in list(callee_blocks):
         b = blocks[bi]
-        if b["t"]["k"] not in ("goto", "drop") or not b["s"]:
+        if b["t"]["k"] == "call" and (b["t"].get("f") or "").endswith("FromResidual::from_residual") and b["t"].get("t") is not None \
+                and not b["t"]["dest"].get("pr") and b["t"]["dest"].get("l") == ret_local:
+            # `expr?` inside the helper: what from_residual writes into the return local is always the failure variant
+            rty = (j["locals"][ret_local].get("ty") or "")
+            adt, var = ("core::result::Result", "Err") if rty.startswith("core::result::Result<") else \
+                       (("core::option::Option", "None") if rty.startswith("core::option::Option<") else (None, None))
+            if adt is None:
+                continue
+            start_env = {ret_local: ("enum", adt, var, None)}
+        elif b["t"]["k"] not in ("goto", "drop") or not b["s"]:
             continue
+        else:
+            start_env = None
         env = {}
         for st in b["s"]:           # values known at the end of the returning block
             if st["k"] != "assign" or st["p"].get("pr"):
@@ -249,6 +260,8 @@ def _thread_const_returns(prog, j, ret_local, callee_blocks):
             elif rv["k"] == "agg" and rv.get("adt") in ("core::result::Result", "core::option::Option"):
                 pay = const_of(rv["ops"][0], env) if rv["ops"] else None
                 env[l] = ("enum", rv["adt"], rv["v"], pay)
+        if start_env is not None:
+            env = dict(start_env)
         if ret_local not in env:
             continue
         env = {ret_local: env[ret_local]}
